@@ -503,3 +503,117 @@ fn interpret_wrapped(atoms: &Atoms, ops: &[Op]) -> Outcome {
     }
     o
 }
+
+
+// ---------------------------------------------------------------------------------------------
+// scale cases (enumerated): terms with very many derivative classes
+// ---------------------------------------------------------------------------------------------
+
+fn wide(m: &mut ReManager, groups: usize, per_group: usize) -> RegLan {
+    // intersection of `groups` stars of intersections of `per_group` distinct characters: the
+    // language is {""} and every even character below 2*groups*per_group has its own class
+    let mut gs = Vec::with_capacity(groups);
+    for g in 0..groups {
+        let chars: Vec<RegLan> = (0..per_group).map(|k| m.char((2 * (g * per_group + k)) as u32)).collect();
+        let i = m.inter_list(chars);
+        gs.push(m.star(i));
+    }
+    m.inter_list(gs)
+}
+
+/// One manager, one term with groups*per_group derivative classes (above 2^16 in the large case):
+/// hash-consing and the derivative cache must behave at that scale exactly as at small scale.
+pub fn enumerate(thorough: bool, part: usize, _parts: usize, sink: &mut crate::runner::EnumSink) {
+    if part != 0 {
+        return;
+    }
+    let _ = thorough;
+    for (groups, per_group) in [(3usize, 5usize), (40, 7), (257, 256)] {
+        let mut o = Outcome::default();
+        let n = groups * per_group;
+        let res = catch(|| {
+            let mut fails: Vec<(String, String)> = Vec::new();
+            let mut m = ReManager::new();
+            let x = wide(&mut m, groups, per_group);
+            if x.num_deriv_classes() != n {
+                fails.push(("C07/scale/classes".into(), format!("term with {} distinct characters has {} derivative classes", n, x.num_deriv_classes())));
+                return fails;
+            }
+            let notx = m.complement(x);
+            if ptr(m.complement(notx)) != ptr(x) {
+                fails.push(("C07/complement-not-involution".into(), "complement(complement(x)) is not x for the wide term".into()));
+            }
+            let empty = m.empty();
+            let full = m.full();
+            let mut evals = 0u64;
+            // L(x) = {""}: every derivative of x is the empty language, every derivative of not(x) is everything;
+            // the two families are requested alternately in blocks so that the cache holds both
+            let ids: Vec<_> = x.class_ids().collect();
+            for (k, cid) in ids.iter().enumerate() {
+                let d = m.class_derivative(x, *cid).unwrap();
+                evals += 1;
+                if ptr(d) != ptr(empty) && !m.is_empty_re(d) {
+                    fails.push(("C07/language-depends-on-history".into(), format!("wide term ({} classes): derivative for class {} is {} but must denote the empty language", n, cid, d)));
+                    break;
+                }
+                if k % 1000 == 999 || k + 1 == ids.len() {
+                    // a few derivatives of the complement in between
+                    for cid2 in [aws_smt_strings::character_sets::ClassId::Complement, aws_smt_strings::character_sets::ClassId::Interval(k % n), aws_smt_strings::character_sets::ClassId::Interval(0)] {
+                        let d2 = m.class_derivative(notx, cid2).unwrap();
+                        evals += 1;
+                        let c2 = m.complement(d2);
+                        if ptr(d2) != ptr(full) && !m.is_empty_re(c2) {
+                            fails.push(("C07/language-depends-on-history".into(), format!("wide term ({} classes): derivative of its complement for class {} is {} but must denote every string (the cache held {} derivatives of the term itself)", n, cid2, d2, k + 1)));
+                            return fails;
+                        }
+                    }
+                }
+            }
+            // all derivatives of the complement, now that every derivative of x is cached
+            let ids2: Vec<_> = notx.class_ids().collect();
+            for cid in ids2 {
+                let d2 = m.class_derivative(notx, cid).unwrap();
+                evals += 1;
+                if ptr(d2) != ptr(full) {
+                    let c2 = m.complement(d2);
+                    if !m.is_empty_re(c2) {
+                        fails.push(("C07/language-depends-on-history".into(), format!("wide term ({} classes): derivative of its complement for class {} is {} but must denote every string", n, cid, d2)));
+                        break;
+                    }
+                }
+            }
+            // the same construction again gives the very same term
+            let again = wide(&mut m, groups, per_group);
+            if ptr(again) != ptr(x) {
+                fails.push(("C07/rebuild-gives-different-term".into(), format!("re-issuing the construction of the wide term ({} classes) gives a different term", n)));
+            }
+            // membership
+            let e = SmtStringOf(&[]);
+            if !m.str_in_re(&e, x) || m.str_in_re(&SmtStringOf(&[1]), x) || m.str_in_re(&SmtStringOf(&[0]), x) || !m.str_in_re(&SmtStringOf(&[1]), notx) {
+                fails.push(("C07/language-depends-on-history".into(), format!("wide term ({} classes): membership of the empty string / one-character strings is wrong", n)));
+            }
+            fails.push(("__evals".into(), evals.to_string()));
+            fails
+        });
+        match res {
+            Ok(fails) => {
+                for (c, msg) in fails {
+                    if c == "__evals" {
+                        o.evals += msg.parse::<u64>().unwrap_or(0);
+                    } else {
+                        o.fail(&c, msg);
+                    }
+                }
+            }
+            Err(msg) => o.fail("C07/panics", format!("wide term with {} classes: {}", n, msg)),
+        }
+        sink.case(&o, true, || format!("scale case: intersection of {} stars of intersections of {} characters ({} derivative classes)", groups, per_group, n));
+    }
+    sink.stats.exhaustive_spaces.push("3 scale cases: one manager holding a term with 15 / 280 / 65792 derivative classes; every class derivative of the term and of its complement".to_string());
+    sink.stats.samples.push("[enum] scale case: inter_list of 257 x star(inter_list of 256 characters) -- 65792 derivative classes".to_string());
+}
+
+#[allow(non_snake_case)]
+fn SmtStringOf(s: &[u32]) -> aws_smt_strings::smt_strings::SmtString {
+    aws_smt_strings::smt_strings::SmtString::from(s)
+}
